@@ -112,6 +112,91 @@ pub fn check_cut(lang: SupportLang, lname: &str, fname: &str, src: &str, node: &
   }
 }
 
+/// The same cut used as the CONTEXT of a pattern object with a `selector`: the sub-pattern selected inside the
+/// context must match the corresponding sub-node of the originating code and bind the holes inside it exactly.
+/// Premise (checked): the plain cut kept the tree shape, and the first node of the selector kind in the parsed
+/// context is the image of the chosen sub-node (same text after mapping the holes).
+pub fn check_selector(lang: SupportLang, lname: &str, fname: &str, src: &str, node: &N, cut: &Cut, rng: &mut Rng, rep: &mut Report) {
+  let inside_hole = |r: &std::ops::Range<usize>| {
+    cut.singles.iter().any(|(_, h)| h.start <= r.start && r.end <= h.end)
+      || cut.multi.as_ref().map(|(_, rs)| !rs.is_empty() && rs[0].start <= r.start && r.end <= rs[rs.len() - 1].end).unwrap_or(false)
+  };
+  let mut seen = std::collections::HashSet::new();
+  let mut cands: Vec<N> = vec![];
+  for d in node.dfs().skip(1) {
+    let first_of_kind = seen.insert(d.kind_id());
+    if first_of_kind && d.is_named() && d.children().len() > 0 && !inside_hole(&d.range()) && d.kind_id() != node.kind_id() {
+      cands.push(d);
+    }
+  }
+  if cands.is_empty() {
+    return;
+  }
+  let sel = rng.pick(&cands).clone();
+  // text of the selected sub-node as it is spelled in the pattern
+  let mut holes: Vec<(std::ops::Range<usize>, String)> = cut.singles.iter().map(|(n, r)| (r.clone(), format!("${n}"))).collect();
+  if let Some((n, rs)) = &cut.multi {
+    if !rs.is_empty() {
+      holes.push((rs[0].start..rs[rs.len() - 1].end, format!("$$${n}")));
+    }
+  }
+  holes.retain(|(r, _)| sel.range().start <= r.start && r.end <= sel.range().end);
+  holes.sort_by_key(|(r, _)| r.start);
+  let mut expected = String::new();
+  let mut at = sel.range().start;
+  for (r, v) in &holes {
+    expected.push_str(&src[at..r.start]);
+    expected.push_str(v);
+    at = r.end;
+  }
+  expected.push_str(&src[at..sel.range().end]);
+  let selector = sel.kind().to_string();
+  let replay = json!({"monitor":"c02","mode":"selector","lang":lname,"file":fname,"source":src,"pattern":cut.pattern,"selector":selector,
+    "node":[sel.range().start,sel.range().end],"kind":selector,
+    "singles":holes.iter().filter(|(_, v)| !v.starts_with("$$$")).map(|(r, v)| json!([v.trim_start_matches('$'), r.start, r.end])).collect::<Vec<_>>()});
+  let r = guarded(|| {
+    let processed = lang.pre_process_pattern(&cut.pattern);
+    let pg = lang.ast_grep(&*processed);
+    let first = pg.root().dfs().find(|x| x.kind() == selector.as_str())?;
+    let e = lang.expando_char();
+    if first.text().replace(e, "$") != expected {
+      return None;
+    }
+    let pat = Pattern::contextual(&cut.pattern, &selector, lang).ok()?;
+    let mut viol = vec![];
+    for s in ALL_S {
+      let p = pat.clone().with_strictness(s.to_impl());
+      match p.match_node(sel.clone()) {
+        None => viol.push((format!("C02/selector/no-match/{}", s.name()), format!("context `{}` with selector {selector} does not match the sub-node `{}` it was cut from under {}", clip(&cut.pattern, 100), clip(&sel.text(), 60), s.name()))),
+        Some(nm) => {
+          for (r, v) in &holes {
+            if v.starts_with("$$$") {
+              continue;
+            }
+            let name = v.trim_start_matches('$');
+            match nm.get_env().get_match(name) {
+              Some(b) if b.range() == *r => {}
+              other => viol.push((format!("C02/selector/binding/{}", s.name()), format!("${name} bound to {:?}, expected {:?} (context `{}`, selector {selector})", other.map(|b| b.range()), r, clip(&cut.pattern, 100)))),
+            }
+          }
+        }
+      }
+    }
+    Some(viol)
+  });
+  match r {
+    Ok(Some(viol)) => {
+      rep.count("selector_cases", 1);
+      rep.count(&format!("selector_cases.{lname}"), 1);
+      for (sig, what) in viol {
+        rep.violation(&sig, &what, replay.clone());
+      }
+    }
+    Ok(None) => rep.count("selector_premise_not_met", 1),
+    Err(p) => rep.violation(&format!("C02/panic/{}", p.site()), &format!("selector: panic at {}: {}", p.location, p.message), replay),
+  }
+}
+
 pub fn run_file(f: &SrcFile, per_file: usize, rng: &mut Rng, rep: &mut Report) {
   let lname = corpus::lang_name(f.lang);
   let grep = f.lang.ast_grep(&f.text);
@@ -136,6 +221,9 @@ pub fn run_file(f: &SrcFile, per_file: usize, rng: &mut Rng, rep: &mut Report) {
     rep.evaluations += 1;
     let (premise, nt) = check_cut(f.lang, &lname, &f.name, &f.text, node, &cut, rep);
     if premise {
+      if rng.chance(1, 3) {
+        check_selector(f.lang, &lname, &f.name, &f.text, node, &cut, rng, rep);
+      }
       rep.count("premise_held", 1);
       rep.count(&format!("premise_held.{lname}"), 1);
       if nt {
@@ -164,6 +252,25 @@ pub fn run(ctx: &Ctx, rep: &mut Report) {
       rep.notes.push("replay: node not found".into());
       return;
     };
+    if r["mode"].as_str() == Some("selector") {
+      rep.evaluations += 1;
+      let Ok(pat) = Pattern::contextual(r["pattern"].as_str().unwrap(), r["selector"].as_str().unwrap(), lang) else { return };
+      for s in ALL_S {
+        let p = pat.clone().with_strictness(s.to_impl());
+        match p.match_node(node.clone()) {
+          None => rep.violation(&format!("C02/selector/no-match/{}", s.name()), "context with selector does not match the sub-node it was cut from", r.clone()),
+          Some(nm) => {
+            for x in r["singles"].as_array().unwrap() {
+              let (name, a, b) = (x[0].as_str().unwrap(), x[1].as_u64().unwrap() as usize, x[2].as_u64().unwrap() as usize);
+              if nm.get_env().get_match(name).map(|n| n.range()) != Some(a..b) {
+                rep.violation(&format!("C02/selector/binding/{}", s.name()), &format!("${name} not bound to {a}..{b}"), r.clone());
+              }
+            }
+          }
+        }
+      }
+      return;
+    }
     let cut = Cut {
       pattern: r["pattern"].as_str().unwrap().to_string(),
       node: range,
